@@ -85,7 +85,7 @@ Section All.
   Fixpoint kind_proved (k : pkind) : bool :=
     match k with
     | KObservable _ | KStixObject _ | KExtensions _ => false
-    | KHashes names vv => hashes_kind_ok vr names vv
+    | KHashes names vv => hashes_kind_ok vr names vv && forallb (fun n => negb (ustr_eqb n cp_key) && negb (ustr_eqb n ext_key)) names
     | KList k' => kind_proved k'
     | KEmbedded cid | KListOf cid => P cid
     | _ => true
@@ -94,7 +94,8 @@ Section All.
   (* the nested constructor on plain input: an object, free of reserved keywords, idempotent on its own output *)
   Definition rc_idem : Prop :=
     forall cid a i d o, P cid = true -> plain_dict d = true -> rc cid a i d = Ok o ->
-      encode false o = JObj (omem o) /\ reserved_kw (omem o) = Ok tt /\ rc cid a i (omem o) = Ok o.
+      encode false o = JObj (omem o) /\ reserved_kw (omem o) = Ok tt /\ rc cid a i (omem o) = Ok o /\
+      plain_dict (omem o) = true.
 
   Hypothesis Hrc : rc_idem.
 
@@ -126,7 +127,7 @@ Section All.
       destruct (rc cid a i m) as [o | |] eqn:Eo; try discriminate.
       destruct (listof_items rc cid a i r) as [[res' h'] | |] eqn:Er; try discriminate.
       inv_ok H. cbn [fst snd map]. rewrite plain_json_obj in Hx.
-      destruct (Hrc cid a i m o HP Hx Eo) as [E1 [E2 E3]].
+      destruct (Hrc cid a i m o HP Hx Eo) as [E1 [E2 [E3 _]]].
       rewrite E1. cbn [listof_items]. unfold bind. rewrite E2, E3.
       rewrite (IH res' h' HP Hr eq_refl). reflexivity.
   Qed.
@@ -161,7 +162,7 @@ Section All.
     - eapply idem_KBool; eauto.
     - eapply idem_KTime; eauto.
     - eapply idem_KDict; eauto.
-    - eapply idem_KHashes; eauto.
+    - apply andb_true_iff in Hk. destruct Hk as [Hk _]. eapply idem_KHashes; eauto.
     - eapply idem_KBinary; eauto.
     - eapply idem_KHex; eauto.
     - eapply idem_KRef; eauto.
@@ -171,7 +172,7 @@ Section All.
       destruct (reserved_kw m) as [[] | |] eqn:Ek; try discriminate.
       destruct (rc cls allow false m) as [o | |] eqn:Eo; try discriminate.
       rewrite plain_json_obj in Hv.
-      destruct (Hrc cls allow false m o Hk Hv Eo) as [E1 [E2 E3]].
+      destruct (Hrc cls allow false m o Hk Hv Eo) as [E1 [E2 [E3 _]]].
       destruct (negb allow && pval_has_custom o) eqn:Eh; try discriminate. inv_ok H.
       rewrite E1. unfold bind. rewrite E2, E3, Eh. reflexivity.
     - eapply idem_KEnum; eauto.
@@ -229,5 +230,110 @@ Section All.
       destruct (listof_items rc cls allow interop a) as [[res h] | |]; try discriminate.
       unfold finish_list in H. destruct (negb allow && h); try discriminate. destruct res; try discriminate.
       inv_ok H. rewrite encode_arr. reflexivity.
+  Qed.
+
+  Lemma enc_members_aset : forall incl n v acc,
+    enc_members incl (aset n v acc) = aset n (encode incl v) (enc_members incl acc).
+  Proof.
+    unfold enc_members. induction acc as [| [k x] r IH]; cbn [aset map fst snd]; auto.
+    destruct (ustr_eqb n k); cbn [map fst snd]; [reflexivity | f_equal; exact IH].
+  Qed.
+
+  Lemma plain_dict_aset : forall n x (acc : list (ustring * jvalue)),
+    plain_dict acc = true -> plain_member (n, x) = true -> plain_dict (aset n x acc) = true.
+  Proof.
+    unfold plain_dict. induction acc as [| [k y] r IH]; intros Ha Hm; cbn [aset forallb].
+    - rewrite Hm. reflexivity.
+    - cbn [forallb] in Ha. apply andb_true_iff in Ha. destruct Ha as [A1 A2].
+      destruct (ustr_eqb n k); cbn [forallb].
+      + rewrite Hm, A2. reflexivity.
+      + rewrite A1. cbn [andb]. apply IH; auto.
+  Qed.
+
+  (* a cleaned value is written as plain JSON again *)
+  Lemma hashes_loop_plain : forall names a l acc hc p h,
+    forallb (fun n => negb (ustr_eqb n cp_key) && negb (ustr_eqb n ext_key)) names = true ->
+    plain_dict l = true ->
+    hashes_loop vr names a l acc hc = Ok (p, h) ->
+    plain_dict (enc_members false acc) = true ->
+    exists acc', p = PMap acc' /\ plain_dict (enc_members false acc') = true.
+  Proof.
+    intros names a. induction l as [| [k hv] r IH]; intros acc hc p h Hn Hl H Ha.
+    - cbn [hashes_loop] in H. inv_ok H. eauto.
+    - rewrite hashes_loop_step in H. cbn [plain_dict forallb] in Hl. apply andb_true_iff in Hl. destruct Hl as [Hm Hr].
+      destruct (hash_value_ok vr k hv).
+      + destruct (hash_target names k) as [n c] eqn:T. destruct (negb a && (hc || c)); try discriminate.
+        eapply IH; [exact Hn | exact Hr | exact H |].
+        (* the entry stored: key n (the given key or a specification name), value hv *)
+        assert (Hkey : negb (ustr_eqb n cp_key) && negb (ustr_eqb n ext_key) = true).
+        { unfold hash_target in T. unfold plain_member in Hm. cbn [fst snd] in Hm.
+          apply andb_true_iff in Hm. destruct Hm as [Hm _]. apply andb_true_iff in Hm. destruct Hm as [Hm _].
+          destruct (infer_hash k) as [alg |].
+          - destruct (hash_spec_name names alg) as [n' |] eqn:S; inv T; [| exact Hm].
+            unfold hash_spec_name in S. apply find_some in S. destruct S as [S _]. apply in_rev in S.
+            rewrite forallb_forall in Hn. apply Hn. exact S.
+          - inv T. exact Hm. }
+        assert (Hval : negb (nullish hv) && plain_json hv = true).
+        { unfold plain_member in Hm. cbn [fst snd] in Hm. apply andb_true_iff in Hm. destruct Hm as [Hm Hp].
+          apply andb_true_iff in Hm. destruct Hm as [_ Hnn]. rewrite Hnn, Hp. reflexivity. }
+        rewrite enc_members_aset. apply plain_dict_aset; [exact Ha |].
+        unfold plain_member. cbn [fst snd encode]. apply andb_true_iff in Hval. destruct Hval as [V1 V2].
+        rewrite Hkey, V1, V2. reflexivity.
+      + destruct (infer_hash k); [destruct hv; discriminate |]. inv_ok H. eauto.
+  Qed.
+
+  Lemma clean_kind_plain : forall k, kind_proved k = true ->
+    forall allow interop v p hc, plain_json v = true ->
+    CK k allow interop v = Ok (p, hc) -> plain_json (encode false p) = true.
+  Proof.
+    induction k; intros Hk allow interop jv pv hcv Hv H; cbn [kind_proved] in Hk; try discriminate; cbn [clean_kind] in H.
+    all: unfold clean_string, clean_float, clean_bool, clean_reference in H.
+    all: try (walk H; try discriminate; match type of H with Ok _ = Ok _ => inv H; cbn [encode plain_json]; auto end; fail).
+    - (* dictionary: the value itself *)
+      unfold bind in H. destruct (clean_dictionary vr v jv) as [d | |] eqn:E; try discriminate. inv_ok H. cbn [encode].
+      unfold clean_dictionary, bind in E. destruct jv; cbn [get_dict] in E; try discriminate.
+      destruct (clean_dict_keys vr v m); try discriminate. destruct m; try discriminate. inv_ok E. exact Hv.
+    - (* hashes *)
+      apply andb_true_iff in Hk. destruct Hk as [_ Hn].
+      unfold clean_hashes, bind in H. destruct (clean_dictionary vr v jv) as [d | |] eqn:E; try discriminate.
+      assert (Hd : plain_dict d = true).
+      { unfold clean_dictionary, bind in E. destruct jv; cbn [get_dict] in E; try discriminate.
+        destruct (clean_dict_keys vr v m); try discriminate. destruct m; try discriminate. inv_ok E.
+        rewrite plain_json_obj in Hv. exact Hv. }
+      destruct (hashes_loop_plain names allow d [] false pv hcv Hn Hd H eq_refl) as [acc' [Ep Ha]].
+      subst pv. rewrite encode_map. rewrite plain_json_obj. exact Ha.
+    - (* embedded *)
+      destruct jv; try discriminate. unfold bind in H.
+      destruct (reserved_kw m) as [[] | |]; try discriminate.
+      destruct (rc cls allow false m) as [o | |] eqn:Eo; try discriminate.
+      rewrite plain_json_obj in Hv. destruct (Hrc cls allow false m o Hk Hv Eo) as [E1 [_ [_ E4]]].
+      destruct (negb allow && pval_has_custom o); try discriminate. inv_ok H. rewrite E1. rewrite plain_json_obj. exact E4.
+    - (* list *)
+      unfold bind in H. destruct (list_items jv) as [l | |] eqn:El; try discriminate.
+      destruct (clean_items (CK k allow interop) l) as [[res h] | |] eqn:Ec; try discriminate.
+      destruct (finish_list_encode _ _ _ _ _ H) as [Ep Eh]. subst pv hcv.
+      rewrite encode_arr. unfold enc_list. rewrite plain_json_arr.
+      pose proof (list_items_plain jv l Hv El) as Hl. clear H El.
+      revert res h Ec. induction l as [| x r IHl]; intros res h Ec; cbn [clean_items] in Ec.
+      + inv_ok Ec. reflexivity.
+      + unfold bind in Ec. destruct (CK k allow interop x) as [[p hc] | |] eqn:Ex; try discriminate.
+        destruct (clean_items (CK k allow interop) r) as [[res' h'] | |] eqn:Er; try discriminate. inv_ok Ec.
+        cbn [forallb] in Hl. apply andb_true_iff in Hl. destruct Hl as [Hx Hr].
+        cbn [fst map forallb]. rewrite (IHk Hk allow interop x p hc Hx Ex). cbn [andb]. eapply IHl; eauto.
+    - (* list of objects *)
+      unfold bind in H. destruct (list_items jv) as [l | |] eqn:El; try discriminate.
+      destruct (listof_items rc cls allow interop l) as [[res h] | |] eqn:Ec; try discriminate.
+      destruct (finish_list_encode _ _ _ _ _ H) as [Ep Eh]. subst pv hcv.
+      rewrite encode_arr. unfold enc_list. rewrite plain_json_arr.
+      pose proof (list_items_plain jv l Hv El) as Hl. clear H El.
+      revert res h Ec. induction l as [| x r IHl]; intros res h Ec; cbn [listof_items] in Ec.
+      + inv_ok Ec. reflexivity.
+      + destruct x; try discriminate. unfold bind in Ec.
+        cbn [forallb] in Hl. apply andb_true_iff in Hl. destruct Hl as [Hx Hr]. rewrite plain_json_obj in Hx.
+        destruct (reserved_kw m) as [[] | |]; try discriminate.
+        destruct (rc cls allow interop m) as [o | |] eqn:Eo; try discriminate.
+        destruct (listof_items rc cls allow interop r) as [[res' h'] | |] eqn:Er; try discriminate. inv_ok Ec.
+        destruct (Hrc cls allow interop m o Hk Hx Eo) as [E1 [_ [_ E4]]].
+        cbn [fst map forallb]. rewrite E1. rewrite plain_json_obj. unfold plain_dict in E4. rewrite E4. cbn [andb]. eapply IHl; eauto.
   Qed.
 End All.
